@@ -298,6 +298,8 @@ def draw_op(rng, fs, total_q):
         kw = {}
         if rng.random() < 0.6:
             kw["type"] = str(rng.choice(["linear", "constant"]))
+        if rng.random() < 0.3:
+            kw["overwrite_data"] = True  # documented scipy keyword: may work in place on what it is given - never on the stored originals
         return "detrend", kw
     if 0.55 <= u < 0.62:
         # a stiff filter: high order (the documented default is 8) with a low / narrow band - fine in second-order sections
@@ -341,6 +343,12 @@ def run_sampled(ctx, case, kind):
         ctx.state({1: "1 dataset", 3: "3 datasets"}.get(nset, "2 datasets"))
         if any(r != sorted(r) for r in refs):
             ctx.state("refs listed out of order")
+    if rng.random() < 0.2:
+        # a dead sensor with an offset: one channel exactly constant (and not zero) over the whole record
+        for a in d0:
+            if a.shape[1] >= 2 and rng.random() < 0.7:
+                a[:, int(rng.integers(0, a.shape[1]))] = float(rng.choice([-2.5, 0.75, 1.0, 300.0]))
+        ctx.state("a channel that is exactly constant")
     u = rng.random()
     if u < 0.15:
         d0 = [np.round(a * float(rng.choice([3, 40, 2000]))).astype(rng.choice([np.int16, np.int32, np.int64])) for a in d0]  # raw ADC counts
